@@ -165,6 +165,13 @@ class World:
                 else: cs.append({'name': a.name, 'kind': 'scalar', 'columns': list(a.columns)})
             self.cols.append(cs)
         self.m2m = [i for i, r in enumerate(schema['rels']) if r['kind'] in ('m2m', 'symm')]
+        # `_calc_modified_m2m` collects the pairs of a relationship from the attribute that sorts first by (entity name, attribute name)
+        self.m2m_side = {}
+        for i in self.m2m:
+            if schema['rels'][i]['sym']: self.m2m_side[i] = False
+            else:
+                ks = sorted([(self.relattr[(i, sd)].entity.__name__, self.relattr[(i, sd)].name, sd) for sd in (False, True)])
+                self.m2m_side[i] = ks[0][2]
         self.table_ent = {cls._table_: e for e, cls in enumerate(self.classes)}
         self.table_rel = {}
         for i in self.m2m:
@@ -1268,7 +1275,9 @@ def compare_model(run, ctx, out):
             m = {(l[0], _jkey(l[1]), _jkey(l[2])) for l in st[name]}
             sides = {}
             for (ri, x, y, side) in snap[name]: sides.setdefault(side, set()).add((ri, x, y))
-            r0 = sides.get(False, set())
+            r0 = set()
+            for (ri, x, y, side) in snap[name]:
+                if side == run.w.m2m_side[ri]: r0.add((ri, x, y))      # the side the flush collects the pairs from
             if m != r0: return diff('pending %s link pairs differ' % name, sorted(m), sorted(r0))
         if bool(st['modified']) != bool(snap['modified']): return diff('cache.modified differs', st['modified'], snap['modified'])
         if 'stmts' in snap:
@@ -1356,7 +1365,9 @@ def explore(ctx, prop, nhist, nops):
                 try: run.w.db.disconnect()
                 except Exception: pass
     if batch and ctx.driver.ok:
-        outs = ctx.driver('C09', [{'op': 'run', 'ncols': [len(c) for c in run.w.cols], 'ops': mops} for _, _, mops, _, run in batch])
+        reqs = [{'op': 'run', 'ncols': [len(c) for c in run.w.cols], 'ops': mops} for _, _, mops, _, run in batch]
+        if prop != 'C09': reqs = [dict(r, model='session') for r in reqs]       # Drive/C10 forwards these to Drive/C09
+        outs = ctx.driver(prop, reqs)
         for (schema, ops, mops, checks, run), out in zip(batch, outs):
             if 'unknown property' in str(out.get('driver_error')): raise RuntimeError('the shared driver executable was replaced while running: %r' % out)
             d = compare_model(run, ctx, out)
